@@ -73,7 +73,7 @@ func (b *WB) Exec(o *Op) {
 		d := ecs.EntityDump{Entities: []ecs.Entity{{}}, Alive: []uint32{}, Next: 0, Available: 0}
 		b.W.LoadEntities(&d)
 	case OpRegisterNew:
-		ecs.TypeID(b.W, reflect.ArrayOf(30000+o.N, reflect.TypeOf(byte(0))))
+		ecs.TypeID(b.W, newTypeFor(o))
 	default:
 		panic("harness: Exec of non-structural op " + o.K)
 	}
@@ -465,6 +465,15 @@ func (s *Sim) doLockDuring(o *Op) {
 	}
 }
 
+// newTypeFor builds the fresh component type of a registerNew op: V=1 a relation type.
+func newTypeFor(o *Op) reflect.Type {
+	arr := reflect.ArrayOf(30000+o.N, reflect.TypeOf(byte(0)))
+	if o.V == 1 {
+		return reflect.StructOf([]reflect.StructField{relField(), {Name: "V", Type: arr}})
+	}
+	return arr
+}
+
 // doRegisterNew registers a brand-new component type on an unlocked world: it must get the
 // next dense ID.
 func (s *Sim) doRegisterNew(o *Op) {
@@ -473,7 +482,7 @@ func (s *Sim) doRegisterNew(o *Op) {
 		if n >= ecs.MaskTotalBits {
 			continue
 		}
-		tp := reflect.ArrayOf(30000+o.N, reflect.TypeOf(byte(0)))
+		tp := newTypeFor(o)
 		var id ecs.ID
 		if p := Call(func() { id = ecs.TypeID(b.W, tp) }); p != nil {
 			s.Report(finding(CatLock, "%s: registering a new component type on an unlocked world panicked: %v", b.Name, p))
@@ -481,6 +490,10 @@ func (s *Sim) doRegisterNew(o *Op) {
 		}
 		if got := len(ecs.ComponentIDs(b.W)); got != n+1 || id != RawIDs()[n] {
 			s.Report(finding(CatLock, "%s: new component type got id %v with %d types registered before (registry now %d)", b.Name, id, n, got))
+			return
+		}
+		if info, ok := ecs.ComponentInfo(b.W, id); !ok || info.IsRelation != (o.V == 1) || info.Type != tp {
+			s.Report(finding(CatLock, "%s: ComponentInfo of the new component type %v is %+v (relation type: %v)", b.Name, tp, info, o.V == 1))
 			return
 		}
 	}
@@ -497,7 +510,8 @@ func (g *Gen) DrawLockOp(t *rapid.T, unique int) Op {
 			attempts = append(attempts, Op{K: sk.K})
 			continue
 		case OpRegisterNew:
-			attempts = append(attempts, Op{K: sk.K, N: unique})
+			// a rejected relation type, and a plain one that is registered after unlocking
+			attempts = append(attempts, Op{K: sk.K, N: 2 * unique, V: 1}, Op{K: sk.K, N: 2*unique + 1, V: 0})
 			continue
 		}
 		mixSave := g.Mix
